@@ -11,6 +11,7 @@
 import FalconProofs.C06.AsmEntry
 import FalconProofs.C06.AsmNoPanic
 import FalconProofs.C06.Refines
+import FalconProofs.C06.GuardOr
 
 namespace Falcon.C06Asm
 open Falcon Falcon.CfgEdit Falcon.Assemble Falcon.C15
@@ -213,6 +214,15 @@ theorem rstep_next_single {tb : List (Nat × BTR)} {single : Nat → Option (Lis
   · intro q hq hqa
     subst hqa
     rw [hreq]; exact hchain q hq b c
+
+/-- **merged_guard_enabled** — the guard `or c₁ c₂` that the repaired successor loop (falcon fed1e64) puts on an edge
+    requested twice is enabled exactly when one of the two requested guards is, in every state in which both evaluate
+    to 0/1 constants of one positive width (`OrEvaluable`).  This is the fact a `reqFun`-free version of `asm_refines`
+    needs; it is state-dependent and needed in both directions, which is why `asm_refines` keeps `reqFun` and programs
+    with a merged guard are validated per case. -/
+theorem merged_guard_enabled {σ : State} {c₁ c₂ : Expr} (h : OrEvaluable σ c₁ c₂) :
+    guardHolds σ (some (.bin .or c₁ c₂)) ↔ guardHolds σ (some c₁) ∨ guardHolds σ (some c₂) :=
+  guardHolds_or_iff h
 
 /-- **translate_function_refines** — the same for the whole of `translate_function_extended` (work list +
     assembly): the table is the one the work list built; `Coherent.keys` comes for free. -/
